@@ -40,6 +40,10 @@ def constructs():
         'arraycompound': Arr(I(2), Op('+', V('x'), I(1))), 'arraycompound0': Arr(I(0), Call('f', [I(1), I(1)])),
         'object': Obj(N(), [Let('u', I(1)), Fun('g', [], V('this'))]), 'objectext': Obj(V('a'), [Let('u', V('x'))]),
         'objectempty': Obj(N(), []),
+        # programs the compiler must refuse or that fail when run: still inside C02's quantifier if they compile
+        'objectdupfield': Obj(N(), [Let('u', I(1)), Let('u', I(2))]), 'objectdupfield3': Obj(V('a'), [Let('u', I(1)), Let('w', V('x')), Let('u', I(2))]),
+        'objectdupmethod': Obj(N(), [Fun('g', [], I(1)), Fun('g', ['p'], V('p'))]),
+        'blockletdup': Blk([Let('q', I(1)), Let('q', I(2)), V('q')]), 'blockletdup3': Blk([Let('q', I(1)), Let('r', I(2)), Let('q', I(3)), Op('+', V('q'), V('r'))]),
     }
 
 
@@ -125,8 +129,11 @@ def construct_family(pairs=False, limit=None, rng=None):
             ast = Top(stmts)
             out.append({'name': 'cxpair:%s,%s' % (n1, n2), 'text': unparse(ast), 'ast': strip_marks(ast)})
     if limit is not None and len(out) > limit:
+        # every construct in the three most telling positions under every frame kind is always kept; the rest is sampled
         rng = rng or random.Random(seed())
-        out = rng.sample(out, limit)
+        core = [p for p in out if p['name'].startswith('cx:') and p['name'].split('/')[1] in ('top_discard', 'kept_print', 'arg_pending')]
+        rest = [p for p in out if p not in core]
+        out = core + rng.sample(rest, max(0, min(len(rest), limit - len(core))))
     return out
 
 
